@@ -10,9 +10,12 @@
 EXTENDS Naturals, TLC, Json
 VARIABLE run
 Allows == {<<>>, <<"All">>, <<"Deprecated">>, <<"BrokenDocLink", "IncorrectDocComment">>}
-Init == /\ run \in [prog : 1..8, format : {"human", "json"}, disable_color : BOOLEAN, allow : Allows, gen : {"none", "missing", "okwarn"},
+Init == /\ run \in [prog : 1..9, format : {"human", "json"}, disable_color : BOOLEAN, allow : Allows, gen : {"none", "missing", "okwarn"},
                      driver : {"binary", "library"}]
         /\ (run.driver = "library" => run.gen = "none")      \* generators belong to the binary
 Next == UNCHANGED run
-Emit == PrintT(<<"CASE", ToJson(run)>>)
+\* what the program must yield at least, whatever the library says: program 9 is two files that each lack their module
+\* declaration - one error (without a location) per file
+MinErrors == IF run.prog = 9 THEN 2 ELSE 0
+Emit == PrintT(<<"CASE", ToJson([run EXCEPT !.gen = run.gen] @@ [min_errors |-> MinErrors])>>)
 ====================================================================================================
